@@ -1,47 +1,46 @@
 import Lean.Data.Json
 import GristModel
+import Driver.Treeview
+import Driver.Engine
 open Lean
 
 namespace Grist.Driver
 
-def jNat? (j : Json) : Option Nat := match j.getNat? with | .ok n => some n | _ => none
-
-def handleTreeview (j : Json) : Except String Json := do
-  let items ← j.getObjValAs? (Array Json) "items"
-  let dels ← j.getObjValAs? (Array Nat) "deleted"
-  let its ← items.toList.mapM (fun p => do
-    let a ← p.getArr?
-    if h : a.size = 2 then
-      let i ← a[0].getNat?
-      let n ← a[1].getNat?
-      pure (Grist.Treeview.Item.mk i n)
-    else throw "bad item")
-  let del := fun k => dels.contains k
-  let adj := Grist.Treeview.fixIndents its del
-  let fin := Grist.Treeview.applyFixes its del adj
-  pure <| Json.mkObj [("adj", toJson (adj.map (fun p => [p.1, p.2]))), ("final", toJson fin)]
-
-def handle (j : Json) : Except String Json := do
-  let m ← j.getObjValAs? String "m"
+/-- Stateless models: one op in, one answer out. -/
+def handleStateless (m : String) (j : Json) : Except String Json :=
   match m with
   | "treeview" => handleTreeview j
   | _ => throw s!"unknown model {m}"
 
-partial def loop (hin : IO.FS.Stream) (hout : IO.FS.Stream) : IO Unit := do
+structure AllState where
+  engine : Engine.DState := {}
+
+def handle (st : AllState) (j : Json) : AllState × Json :=
+  match j.getObjValAs? String "m" with
+  | .error e => (st, Json.mkObj [("error", Json.str e)])
+  | .ok "engine" =>
+    let (es, r) := Engine.handle st.engine j
+    ({ st with engine := es }, match r with
+      | .ok v => v
+      | .error e => Json.mkObj [("error", Json.str e)])
+  | .ok m =>
+    (st, match handleStateless m j with
+      | .ok v => v
+      | .error e => Json.mkObj [("error", Json.str e)])
+
+partial def loop (hin hout : IO.FS.Stream) (st : AllState) : IO Unit := do
   let line ← hin.getLine
   if line.isEmpty then return ()
-  let out := match Json.parse line with
-    | .error e => Json.mkObj [("error", Json.str s!"parse: {e}")]
-    | .ok j => match handle j with
-      | .ok r => r
-      | .error e => Json.mkObj [("error", Json.str e)]
+  let (st', out) := match Json.parse line with
+    | .error e => (st, Json.mkObj [("error", Json.str s!"parse: {e}")])
+    | .ok j => handle st j
   hout.putStrLn out.compress
-  loop hin hout
+  loop hin hout st'
 
 end Grist.Driver
 
 def main : IO Unit := do
   let hin ← IO.getStdin
   let hout ← IO.getStdout
-  Grist.Driver.loop hin hout
+  Grist.Driver.loop hin hout {}
   hout.flush
